@@ -128,7 +128,10 @@ class SourceFinder:
             if self.fscache.isdir(subpath):
                 sub_sources = self.find_sources_in_dir(subpath)
                 if sub_sources:
-                    seen.add(name)
+                    if self.get_init_file(subpath) is not None:
+                        # Only a real package shadows a module of the same name; a plain
+                        # directory with Python files does not collide with name.py.
+                        seen.add(name)
                     sources.extend(sub_sources)
             else:
                 stem, suffix = os.path.splitext(name)
